@@ -177,6 +177,9 @@ func (f *Frame) lockOp(op string, recv *Value, pos token.Pos) {
 	r := e.comp(f.st, rn, arrSort(sInt))
 	short := strings.TrimPrefix(wn, "LW.")
 	e.assume("true", app(">=", sel(r, idx), "0")) // a read-lock count is a natural number
+	if (op == "Lock" || op == "RLock") && e.guardsOn && !f.dry {
+		f.interfere(l, sel(w, idx), app(">", sel(r, idx), "0"), idx)
+	}
 	switch op {
 	case "Lock":
 		if !f.dry {
